@@ -1,10 +1,7 @@
 import PdfModel.Lemmas.EncEncode
 import PdfModel.Lemmas.EncCheck
-<<<<<<< HEAD
 import PdfModel.Lemmas.LzwCheck
-=======
 import PdfModel.Generated.Lexical
->>>>>>> f81f193907e17783b114467d096b987055d8e3b7
 
 /-!
 # C05 — stream filters decode what standard encoders produce; broken data never panics
